@@ -477,7 +477,7 @@ def eval_kp(ctx, c, out):
                                                   ihex(bytes.fromhex(parts["tail"])))
         nsteps, fw = (3, "NoFault") if c.kp == "before-rename" else (2, "(FailAfter %s)" % gN(c.kp_k))
         pv = "(Some %s)" % ihex(bytes.fromhex(hx(prev))) if prev["has"] else "None"
-        return [("big", INTERN.wrap("(%s, %s, %s, %d%%nat, %s, %s)" % (pv, newb, gN(r), nsteps, fw, glist(obs))))]
+        return [("big", INTERN.wrap("(%s, %s, %s, %d%%nat, %s, %s)" % (pv, newb, gN(r), nsteps, fw, glist(obs)), "kbig"))]
     obs = []
     if file is not None:
         obs.append("(Target, %s)" % g_bspec(file))
@@ -489,7 +489,7 @@ def eval_kp(ctx, c, out):
         r, tl = pp[1][1], e["dig"]["len"]
         obs.append("(Tmp %s, %s)" % (gN(r), g_bspec(e["dig"])))
     pv = "(Some %s)" % ihex(bytes.fromhex(hx(prev))) if prev["has"] else "None"
-    return [("small", INTERN.wrap("(%s, %s, %s, %s, %s)" % (pv, ihex(bytes.fromhex(hx(new))), gN(r), gN(tl), glist(obs))))]
+    return [("small", INTERN.wrap("(%s, %s, %s, %s, %s)" % (pv, ihex(bytes.fromhex(hx(new))), gN(r), gN(tl), glist(obs)), "kcase"))]
 
 
 # ------------------------------------------------------------------ strace projection
@@ -665,9 +665,10 @@ class Intern:
             self.names[h] = "b%d" % len(self.names)
         return self.names[h]
 
-    def wrap(self, term):
+    def wrap(self, term, ty):
+        """the type annotation keeps a lone `None` / `[]` inside a one-term shard from staying unresolved"""
         lets = "".join("let %s := unhex \"%s\" in\n" % (n, h) for h, n in self.names.items())
-        return "(%s%s)" % (lets, term)
+        return "((%s%s) : %s)" % (lets, term, ty)
 
 
 INTERN = Intern()
@@ -914,7 +915,7 @@ def eval_scripted(ctx, c, out):
     vt = glist(sorted(v for v in valid if v is not None), lambda h: ihex(bytes.fromhex(h)))
     term = "(%s, %s, %s, %s, %s, %s)" % (vt, ihex(bytes.fromhex(mem0)), gN(c.ndirs - 1), "[" + ";\n  ".join(items) + "]",
                                          glist(trace_terms) if trace_terms else "(@nil tstep)", gbool(straced))
-    return INTERN.wrap(term)
+    return INTERN.wrap(term, "scase")
 
 
 def eval_kill2(ctx, c, out):
@@ -994,7 +995,7 @@ def eval_kill(ctx, c, out):
                 r, tl = pp[1][1], e["dig"]["len"]
                 obs.append("(Tmp %s, %s)" % (gN(r), g_bspec(e["dig"])))
             prev = "(Some %s)" % ihex(bytes.fromhex(hx(k["prev"]))) if k["prev"]["has"] else "None"
-            terms.append(INTERN.wrap("(%s, %s, %s, %s, %s)" % (prev, ihex(bytes.fromhex(hx(k["new"]))), gN(r), gN(tl), glist(obs))))
+            terms.append(INTERN.wrap("(%s, %s, %s, %s, %s)" % (prev, ihex(bytes.fromhex(hx(k["new"]))), gN(r), gN(tl), glist(obs)), "kcase"))
     return terms
 
 
